@@ -10,7 +10,7 @@
    the calls the code makes on that state (same items applied).  IterBatchUpd/IterBatchDel are the two
    IterBatched variants (batch callbacks, error answers, partial batches); DesSetMany is a bulk Desired().Set. *)
 From Coq Require Import List NArith ZArith Bool.
-From Verif.C18 Require Import Model Spec Proofs Cache Meets MeetsCache.
+From Verif.C18 Require Import Model Spec Proofs Cache Meets MeetsCache Order.
 Import ListNotations.
 Open Scope N_scope.
 
@@ -201,3 +201,92 @@ Theorem c18_cache_batched_delete_is_per_key : forall (V : Type) (veq : V -> V ->
   fst (fold_left (c_del_visit V) (map (fun kv => (fst kv, true)) (applied_of shown)) (fst (c_maybe_load V veq fixed lf c), 0%Z)).
 Proof. exact c_del_b_per_key. Qed.
 Print Assumptions c18_cache_batched_delete_is_per_key.
+
+(* ---------- iteration order is universally quantified ----------
+   A complete PendingUpdates().Iter / PendingDeletions().Iter (callback f does not touch the tracker; Go's range
+   visits every key of the map once) in ANY order `order`: closed form of all four views, with no `order` in it. *)
+Theorem c18_iter_upd_full_any_order : forall (V : Type) (veq : V -> V -> bool),
+  (forall a, veq a a = true) -> (forall a b, veq a b = veq b a) ->
+  (forall a b c, veq a b = true -> veq b c = true -> veq a c = true) ->
+  forall (order : list N) (f : N -> V -> act) (s : st V), Inv V veq s ->
+  let s' := pu_iter_full V order f s in
+  Inv V veq s' /\
+  (forall k, des_get V s' k = des_get V s k) /\
+  (forall k, pd_get V s' k = pd_get V s k) /\
+  (forall k, pu_get V s' k = match pu_get V s k with Some v => if is_upd (f k v) then None else Some v | None => None end) /\
+  (forall k, dp_get V s' k = match pu_get V s k with Some v => if is_upd (f k v) then Some v else dp_get V s k | None => dp_get V s k end).
+Proof. exact iter_upd_full_any_order. Qed.
+Print Assumptions c18_iter_upd_full_any_order.
+
+Theorem c18_iter_del_full_any_order : forall (V : Type) (veq : V -> V -> bool),
+  (forall a, veq a a = true) -> (forall a b, veq a b = veq b a) ->
+  (forall a b c, veq a b = true -> veq b c = true -> veq a c = true) ->
+  forall (order : list N) (f : N -> act) (s : st V), Inv V veq s ->
+  let s' := pd_iter_full V order f s in
+  Inv V veq s' /\
+  (forall k, des_get V s' k = des_get V s k) /\ (forall k, pu_get V s' k = pu_get V s k) /\
+  (forall k, pd_get V s' k = match pd_get V s k with Some v => if is_upd (f k) then None else Some v | None => None end) /\
+  (forall k, dp_get V s' k = match pd_get V s k with Some v => if is_upd (f k) then None else Some v | None => dp_get V s k end).
+Proof. exact iter_del_full_any_order. Qed.
+Print Assumptions c18_iter_del_full_any_order.
+
+(* Two complete iterations in different orders leave identical views. *)
+Theorem c18_iter_order_irrelevant : forall (V : Type) (veq : V -> V -> bool),
+  (forall a, veq a a = true) -> (forall a b, veq a b = veq b a) ->
+  (forall a b c, veq a b = true -> veq b c = true -> veq a c = true) ->
+  forall (o1 o2 : list N) (f : N -> V -> act) (s : st V), Inv V veq s -> forall k,
+  des_get V (pu_iter_full V o1 f s) k = des_get V (pu_iter_full V o2 f s) k /\
+  dp_get V (pu_iter_full V o1 f s) k = dp_get V (pu_iter_full V o2 f s) k /\
+  pu_get V (pu_iter_full V o1 f s) k = pu_get V (pu_iter_full V o2 f s) k /\
+  pd_get V (pu_iter_full V o1 f s) k = pd_get V (pu_iter_full V o2 f s) k.
+Proof. exact iter_upd_order_irrelevant. Qed.
+Print Assumptions c18_iter_order_irrelevant.
+
+(* Desired().DeleteAll (Iter whose callback deletes) with the two range loops in ANY orders: nothing desired is left,
+   the Dataplane view is untouched, Len() = 0.  (Model.des_delete_all is the instance o1 = o2 = [].) *)
+Theorem c18_delete_all_any_order : forall (V : Type) (veq : V -> V -> bool),
+  (forall a, veq a a = true) -> (forall a b, veq a b = veq b a) ->
+  (forall a b c, veq a b = true -> veq b c = true -> veq a c = true) ->
+  forall (o1 o2 : list N) (s : st V), Inv V veq s ->
+  let s' := des_delete_all_ord V o1 o2 s in
+  Inv V veq s' /\ (forall k, des_get V s' k = None) /\ (forall k, dp_get V s' k = dp_get V s k) /\ des_len V s' = 0%Z.
+Proof. exact delete_all_any_order. Qed.
+Print Assumptions c18_delete_all_any_order.
+
+(* ReplaceAllMap ranges over the caller's Go map: any two orders of the same KVs give the same Dataplane view
+   (literally the KVs), Desired views equal up to valuesEqual and the same pending deletions. *)
+Theorem c18_replace_map_order_irrelevant : forall (V : Type) (veq : V -> V -> bool),
+  (forall a, veq a a = true) -> (forall a b, veq a b = veq b a) ->
+  (forall a b c, veq a b = true -> veq b c = true -> veq a c = true) ->
+  forall (fixed : bool) (kvs kvs' : list (N * V)) (s : st V),
+  Permutation.Permutation kvs kvs' -> NoDup (keys kvs) -> Inv V veq s ->
+  let s1 := dp_replace V veq fixed kvs false s in
+  let s2 := dp_replace V veq fixed kvs' false s in
+  Inv V veq s1 /\ Inv V veq s2 /\
+  (forall k, dp_get V s1 k = dp_get V s2 k) /\ (forall k, dp_get V s1 k = get kvs k) /\
+  (forall k, opt_veq V veq (des_get V s1 k) (des_get V s2 k) = true) /\
+  (forall k, pd_get V s1 k = pd_get V s2 k).
+Proof. exact replace_map_order_irrelevant. Qed.
+Print Assumptions c18_replace_map_order_irrelevant.
+
+(* ---------- SetDeltaTracker (delta_set.go): the instance valuesEqual = constantly true ----------
+   After any operation sequence: Contains of the four set views = D, P, D \ P, P \ D. *)
+Theorem c18_set_views_exact : forall (V : Type) (fixed : bool) (ops : list (op V)),
+  ops_ok V (seq_true V) fixed (st0 V) ops ->
+  let s := run V (seq_true V) fixed ops in
+  let D := fst (a_run V (seq_true V) ops) in let P := snd (a_run V (seq_true V) ops) in
+  forall k,
+    (des_get V s k <> None <-> get D k <> None) /\
+    (dp_get V s k <> None <-> get P k <> None) /\
+    (pu_get V s k <> None <-> get D k <> None /\ get P k = None) /\
+    (pd_get V s k <> None <-> get P k <> None /\ get D k = None).
+Proof. exact set_views_exact. Qed.
+Print Assumptions c18_set_views_exact.
+
+(* DeltaTracker.InSync() / SetDeltaTracker.InSync(): true exactly when nothing is pending; then Desired = Dataplane. *)
+Theorem c18_in_sync_iff : forall (V : Type) (veq : V -> V -> bool), (forall a, veq a a = true) ->
+  forall s : st V, Inv V veq s ->
+  (in_sync V s = true <-> (forall k, pu_get V s k = None) /\ (forall k, pd_get V s k = None)) /\
+  (in_sync V s = true -> (forall a b, veq a b = true -> a = b) -> forall k, des_get V s k = dp_get V s k).
+Proof. exact in_sync_iff. Qed.
+Print Assumptions c18_in_sync_iff.
